@@ -10,6 +10,7 @@ import (
 	v1 "github.com/fatedier/frp/pkg/config/v1"
 	"github.com/fatedier/frp/pkg/msg"
 	"github.com/fatedier/frp/pkg/util/util"
+	"github.com/samber/lo"
 	"pgregory.net/rapid"
 
 	"verifharness/fx"
@@ -30,10 +31,12 @@ type FPCase struct {
 	CloseAfter int     `json:"close_after"` // the owner closes the xtcp proxy after this many requests (-1 = never)
 	Concurrent bool    `json:"concurrent"`  // requests are sent without waiting for each other
 	Linger     bool    `json:"linger"`      // wait out the 30 s post-completion linger (thorough)
+	Allow      string  `json:"allow"`       // allowUsers of the xtcp proxy: "*" | "v" (the visitor's user) | "someone-else" (every request must be refused)
 }
 
 func genFP(t *rapid.T) FPCase {
 	c := FPCase{CloseAfter: rapid.SampledFrom([]int{-1, -1, 0, 1, 2}).Draw(t, "closeafter"), Concurrent: rapid.Bool().Draw(t, "concurrent")}
+	c.Allow = rapid.SampledFrom([]string{"*", "*", "v", "someone-else"}).Draw(t, "allow")
 	n := rapid.IntRange(1, 5).Draw(t, "n")
 	for i := 0; i < n; i++ {
 		c.Reqs = append(c.Reqs, FPReq{Sign: rapid.SampledFrom([]string{"ok", "ok", "bad"}).Draw(t, "sign"),
@@ -87,7 +90,7 @@ func runFP(c FPCase) error {
 		return fmt.Errorf("login: %v", err)
 	}
 	defer vis.Close()
-	resp, err := owner.NewProxy(&msg.NewProxy{ProxyName: "x", ProxyType: "xtcp", Sk: "sk", AllowUsers: []string{"*"}}, 5*time.Second)
+	resp, err := owner.NewProxy(&msg.NewProxy{ProxyName: "x", ProxyType: "xtcp", Sk: "sk", AllowUsers: []string{lo.Ternary(c.Allow == "", "*", c.Allow)}}, 5*time.Second)
 	if err != nil || resp.Error != "" {
 		return fmt.Errorf("registration: %v %+v", err, resp)
 	}
@@ -162,13 +165,13 @@ func runFP(c FPCase) error {
 		}
 		n0 := len(vis.NatHoleResps())
 		send(i, r)
-		mustRefuse := r.Sign == "bad" || r.Proxy == "never" || closed
+		mustRefuse := r.Sign == "bad" || r.Proxy == "never" || closed || c.Allow == "someone-else"
 		if mustRefuse {
 			if e := vis.WaitNatHole(n0+1, 4*time.Second); e != nil {
-				return fmt.Errorf("request %d (sign %s, proxy %s, closed=%v) must be refused with an error response: %v", i, r.Sign, r.Proxy, closed, e)
+				return fmt.Errorf("request %d (sign %s, proxy %s, closed=%v, allowUsers=%q) must be refused with an error response: %v", i, r.Sign, r.Proxy, closed, c.Allow, e)
 			}
 			if rr := vis.NatHoleResps()[n0]; rr.Error == "" {
-				return fmt.Errorf("request %d (sign %s, proxy %s, closed=%v) answered without error: %+v", i, r.Sign, r.Proxy, closed, rr)
+				return fmt.Errorf("request %d (sign %s, proxy %s, closed=%v, allowUsers=%q) answered without error: %+v", i, r.Sign, r.Proxy, closed, c.Allow, rr)
 			}
 		} else if !c.Concurrent {
 			time.Sleep(30 * time.Millisecond)
@@ -193,7 +196,7 @@ func runFP(c FPCase) error {
 			break
 		}
 		if time.Now().After(deadline) {
-			return fmt.Errorf("%d NAT-hole sessions still present %v after the last request (close_after=%d, concurrent=%v, reqs=%+v)", snap.NatSessions, wait, c.CloseAfter, c.Concurrent, c.Reqs)
+			return fmt.Errorf("%d NAT-hole sessions still present %v after the last request (close_after=%d, concurrent=%v, allowUsers=%q, reqs=%+v)", snap.NatSessions, wait, c.CloseAfter, c.Concurrent, c.Allow, c.Reqs)
 		}
 		time.Sleep(50 * time.Millisecond)
 	}
